@@ -40,13 +40,15 @@ def auth_of(op):
 
 
 class World:
-    def __init__(self, pkce_required=False, supported=None, strict_hint=False):
+    def __init__(self, pkce_required=False, supported=None, strict_hint=False, oidc=False):
         CLOCK.now = 1_000_000
-        self.store, self.srv, self.rp = ms.build(oidc=False, pkce_required=pkce_required, scopes_supported=supported)
+        self.store, self.srv, self.rp = ms.build(oidc=oidc, pkce_required=pkce_required, scopes_supported=supported)
         self.store.strict_hint = strict_hint
         for cid, sec, m, sc, uris in CLIENTS:
             self.store.clients[cid] = Client(cid, sec, uris, sc, ms.ALL_GRANT_TYPES, ms.ALL_RESPONSE_TYPES, m)
         self.cfg = {"clients": CFG_CLIENTS, "now": 1_000_000, "pkce_required": pkce_required, "supported": supported, "strict_hint": strict_hint}
+        if oidc:
+            self.cfg["oidc"] = True
 
     def num(self, s, prefix):
         m = re.fullmatch(prefix + r"(\d+)", s or "")
@@ -106,6 +108,18 @@ class World:
                 loc = dict(r.headers).get("Location") or ""
                 q = dict(parse_qsl(urlparse(loc).fragment))
                 return self.out(r.status, {"error": q.get("error"), **({"access_token": q["access_token"], "scope": q.get("scope")} if "access_token" in q else {})})
+            if k == "oidc_authorize":  # C19 only: OpenID code / implicit / hybrid authorization requests (traced, oracle-checked)
+                form = {"response_type": op["rt"], "client_id": op["client"], "redirect_uri": op["redirect"], "scope": op["scope"]}
+                if op.get("nonce") is not None:
+                    form["nonce"] = op["nonce"]
+                r = srv.create_authorization_response(Req("POST", "https://as.example/authorize", form), grant_user=store.users[op["user"]])
+                loc = dict(r.headers).get("Location") or ""
+                u = urlparse(loc)
+                q = dict(parse_qsl(u.query)); q.update(parse_qsl(u.fragment))
+                body = {"error": q.get("error")}
+                if "access_token" in q:
+                    body.update(access_token=q["access_token"], scope=q.get("scope"))
+                return self.out(r.status, body, code=self.num(q.get("code"), "code"), id_token="id_token" in q)
             if k == "advance":
                 CLOCK.now += op["dt"]; return self.out(200)
             if k == "user_decide":
